@@ -98,7 +98,7 @@ def _defs_of(doc):
 
 
 @st.composite
-def worlds(draw, ninst=3, hostile_names=True, split_paths=False):
+def worlds(draw, ninst=3, hostile_names=True, split_paths=False, foreign_ids=False):
     """split_paths: put the root's own use of the shared fragment text and the reference into an external
     document that uses the same text under different properties, and add instances reaching only one of them
     (history-dependence needs validations that take different paths)."""
@@ -245,7 +245,7 @@ def worlds(draw, ninst=3, hostile_names=True, split_paths=False):
         if pos == "properties":
             root["properties"] = dict((k, REF()) for k in draw(st.lists(inst_keys, min_size=1, max_size=3, unique=True)))
             if draw(st.integers(0, 3)) == 0:
-                root["properties"]["k"] = {"$ref": "#"} if not exotic else REF()
+                root["properties"]["k"] = {"$ref": draw(st.sampled_from(["#", "", "#", ""]))} if not exotic else REF()
                 classes.append("recursive-root")
         elif pos == "items":
             root["items"] = REF()
@@ -306,6 +306,14 @@ def worlds(draw, ninst=3, hostile_names=True, split_paths=False):
                 if isinstance(holder[n], dict) and "$ref" not in holder[n] and draw(st.integers(0, 5)) == 0:
                     holder[n] = draw(st.booleans())
                     classes.append("boolean-definition")
+    if foreign_ids:
+        # a retrieved document that declares ANOTHER document's URL as its own id (two documents claiming one
+        # identity): only for checks that compare the implementation with itself (C07)
+        hd = [u for u in ext if via[u] == "handler"]
+        if len(hd) >= 2 and draw(st.booleans()):
+            a, b = hd[0], hd[1]
+            docs[a][idkw] = b
+            classes.append("document-claims-foreign-id")
     if draw(st.integers(0, 7)) == 0:
         # the OTHER draft family's id keyword is an unknown keyword here: it must not change any base URI
         other = "$id" if idkw == "id" else "id"
@@ -401,7 +409,7 @@ def all_refs(d, doc):
             yield path, sub
 
 
-def wellformed(case):
+def wellformed(case, allow_foreign_ids=False):
     """Structural guard (also protects against shrinking out of the claimed domain)."""
     try:
         d = case["draft"]
@@ -429,7 +437,7 @@ def wellformed(case):
             if case["via"].get(u) not in ("store", "store#", "handler", "missing"):
                 return False, "malformed-world"
             did = case["docs"][u].get(idkw)
-            if did is not None and doc_uri(did) != u:
+            if did is not None and doc_uri(did) != u and not allow_foreign_ids:
                 return False, "store-id-differs-from-uri"
         return True, ""
     except Exception as e:
